@@ -283,7 +283,6 @@ func keyOf(v px.Value) (k string, out string) {
 func force(v px.Value) {
 	_ = safely(func() { _ = v.PType() })
 	_ = safely(func() { _ = px.DetailedValueType(v) })
-	_ = safely(func() { _ = v.String() })
 	_ = safely(func() { _ = px.ToKey(v) })
 	switch v := v.(type) {
 	case *types.Hash:
@@ -292,6 +291,36 @@ func force(v px.Value) {
 	case *types.Array:
 		v.Each(force)
 	}
+}
+
+// hashKeysKeyable: no key of any hash inside the tree contains a Sensitive.  Otherwise building a hash index panics with
+// INVALID_MAP_KEY at a point that depends on Go's map iteration order; such operands print `unkeyable` on both sides.
+func hashKeysKeyable(e sx.Sexp) bool {
+	if e.Tag() == "h" {
+		for _, kv := range e.Args() {
+			if !noSens(kv.List[0]) {
+				return false
+			}
+		}
+	}
+	for _, k := range e.List {
+		if k.IsList && !hashKeysKeyable(k) {
+			return false
+		}
+	}
+	return true
+}
+
+func noSens(e sx.Sexp) bool {
+	if e.Tag() == "sens" {
+		return false
+	}
+	for _, k := range e.List {
+		if k.IsList && !noSens(k) {
+			return false
+		}
+	}
+	return true
 }
 
 // ---- classification helpers ------------------------------------------------------------------------------------
@@ -488,6 +517,12 @@ func exec(c px.Context, op string, args []sx.Sexp) core.Result {
 		x, y := valOf(ex), valOf(ey)
 		xy, yx := equals(x, y), equals(y, x)
 		out := xy + " " + yx
+		if !hashKeysKeyable(ex) || !hashKeysKeyable(ey) {
+			if xy == "fault" || yx == "fault" {
+				return core.Fail("unkeyable", "equals-fault", "Equals faulted: "+out)
+			}
+			return core.Result{Out: "unkeyable", Pred: "n/a", NonTrivial: true, Tags: []string{"eq:unkeyable"}}
+		}
 		res := core.Result{Out: out, Pred: "ok", NonTrivial: interesting(ex, ey) || xy == "t", Tags: append(tagsOf(ex, ey), "eq:"+xy)}
 		// hidden state: the same questions after forcing every cache, and against separately built copies
 		force(x)
@@ -541,6 +576,15 @@ func exec(c px.Context, op string, args []sx.Sexp) core.Result {
 		x, y, z := valOf(ex), valOf(ey), valOf(ez)
 		xy, yz, xz := equals(x, y), equals(y, z), equals(x, z)
 		out := xy + " " + yz + " " + xz
+		if !hashKeysKeyable(ex) || !hashKeysKeyable(ey) || !hashKeysKeyable(ez) {
+			if xy == "fault" || yz == "fault" || xz == "fault" {
+				return core.Fail("unkeyable", "equals-fault", "Equals faulted: "+out)
+			}
+			return core.Result{Out: "unkeyable", Pred: "n/a", NonTrivial: true, Tags: []string{"eq3:unkeyable"}}
+		}
+		if xy == "fault" || yz == "fault" || xz == "fault" {
+			return core.Fail(out, "equals-fault", "Equals faulted")
+		}
 		res := core.Result{Out: out, Pred: "ok", NonTrivial: xy == "t" || yz == "t", Tags: []string{"eq3:" + xy + yz + xz}}
 		if dupKeys(x) || dupKeys(y) || dupKeys(z) {
 			res.Pred = "n/a"
